@@ -18,7 +18,8 @@ RULE = (
     "one recurring job Job(deferred_by=p, deferred_until=optional), p in 1 s .. 1 h (in-memory mostly 1-5 s because of its "
     "1 ms idle polling), run for 4-20 consecutive iterations with per-iteration actor durations and outcomes from a profile: "
     "constant / growing / shrinking / random / occasionally longer than p (missed slots), success / failure with a retry chain / "
-    "failure with retries exhausted; TTL set in part of the runs; retry delays from a table. For every completed iteration i "
+    "failure with retries exhausted; TTL set in part of the runs; in 40% of the runs results are stored through a results broker "
+    "that stalls for 0.6 or 1.3 periods (slow I/O); retry delays from a table. For every completed iteration i "
     "(scheduled S_i, reschedule requeue issued at F_i with parameters P'): exactly one message with the id afterwards; "
     "P'.already_tried == 0; P'.timestamp within the requeue call; S_{i+1} = P'.next_execution_time with F_i < S_{i+1} <= F_i + p "
     "and S_{i+1} >= S_i + p; first delivery not before deferred_until. cron= is not exercisable (croniter is not installed). "
@@ -68,7 +69,9 @@ def gen(rng, broker, tier):
         outcome = rng.choice(["ok", "ok", "ok", "fail", "fail-once"])
         prof.append({"dur_us": min(d, 20_000_000), "outcome": outcome})
     until = rng.choice([None, None, rng.randint(-2_000_000, 5_000_000), int(p * 1e6 * 1.5)])
-    return {"period_s": p, "profile": prof, "retries": retries, "until_us": until,
+    # slow I/O: the result of every run is stored by a results broker which stalls for a part of / longer than the period
+    slow = rng.choice([None, None, None, int(p * 0.6e6), int(p * 1.3e6)])
+    return {"period_s": p, "profile": prof, "retries": retries, "until_us": until, "slow_store_us": slow,
             "ttl_s": rng.choice([None, None, max(p * 3, 40), 100000]),
             "retry_table_us": [rng.choice([0, 100_000, 700_000])],
             "knobs": {"step_cost": rng.choice([0, 0, 1, "rand"]),
@@ -78,8 +81,19 @@ def gen(rng, broker, tier):
 async def _main(sim, sc, out):
     r = env.repid
     b = sc["broker"]
-    world = await World(sim, b, nodes=("w", "p"), buckets="none", knobs=sc.get("knobs")).setup()
+    slow = sc.get("slow_store_us")
+    world = await World(sim, b, nodes=("w", "p"), buckets="results-only" if slow else "none", knobs=sc.get("knobs")).setup()
     connw, connp = world.conn("w"), world.conn("p")
+    if slow:
+        rb = connw.results_bucket_broker
+        inner_store = rb.store_bucket
+
+        async def slow_store(id_, payload):
+            sim.count("fault:slow-store")
+            await asyncio.sleep(min(slow, 20_000_000) / 1e6)
+            return await inner_store(id_, payload)
+
+        rb.store_bucket = slow_store
     p_us = int(sc["period_s"] * 1e6)
     prof = sc["profile"]
     # behaviour per *invocation*: follows the iteration profile; a failing iteration fails all its attempts
@@ -115,7 +129,7 @@ async def _main(sim, sc, out):
     if sc["ttl_s"] is not None:
         kw["ttl"] = timedelta(seconds=sc["ttl_s"])
     job = r.Job("rec", queue="q0", id_="rj", deferred_by=timedelta(seconds=sc["period_s"]), retries=sc["retries"],
-                timeout=timedelta(seconds=600), args={"jid": "rj"}, store_result=False, _connection=connp, **kw)
+                timeout=timedelta(seconds=600), args={"jid": "rj"}, store_result=bool(slow), _connection=connp, **kw)
     await sim.loop.spawn("p", job.enqueue())
     until_abs = t_enq + sc["until_us"] if sc["until_us"] is not None else None
 
